@@ -10,7 +10,7 @@ def repo_commits(prefix):
 CHECKS = {
  "C01": ("E1", "exploration",
    "runtime monitoring: token-tagged black-box observation of real server+agent under 1-128-way concurrency + Go race detector + crash monitor",
-   "Real race-built server and agent binaries run under barrier-released bursts of token-tagged requests; offline oracles compare every token site the client saw with its own token, count backend arrivals per token, check request-ID uniqueness from the server log and treat any race report with a frame in the anchored files as a violation. Decides the property on the executions produced (thousands to tens of thousands of requests per run), not for all schedules.",
+   "Real race-built server and agent binaries run under barrier-released bursts of token-tagged requests; offline oracles compare every token site the client saw with its own token, count backend arrivals per token, check request-ID uniqueness from the server log and treat any race report with a frame in the anchored files as a violation. Further lanes: an agent with a 2 s proxy time-out, requests whose responses depend on later requests, 1300+ clients queued before the agent connects, a shim-enabled round, clients that walk away or pause mid-upload, clients that nominate shared field names in Connection, and a proxy restarted on its port while the agent keeps running. Decides the property on the executions produced (thousands to tens of thousands of requests per run), not for all schedules.",
    "Trusted: the harness' raw HTTP codec, scripted backend and token discipline; loopback TCP; the Go race detector's happens-before model. Schedules explored are those the kernel/Go scheduler produce under bursts and token-dependent backend latency.",
    "DESIGN.md §3 C01"),
  "C02": ("E1", "exploration",
@@ -21,7 +21,7 @@ CHECKS = {
  "C03": ("E1", "exploration",
    "runtime monitoring: wire-level differential observer over scripted backend responses (all statuses 200-599, framings, trailers, 1xx, delays) + race detector",
    "A scripted raw backend emits responses covering every final status 200-599 with generated header sets, framings, body sizes at buffer boundaries, declared/undeclared trailers, interim 1xx responses and inter-part delays; a raw client parses what comes back through server+agent and the response fidelity oracle compares status, fields, hop-by-hop tokens, body and trailer section. Races in the anchored files count as violations.",
-   "Trusted: harness codec; relaying of interim responses and fields added under names the backend did not use are deliberately not judged; default agent configuration only.",
+   "Trusted: harness codec; relaying of interim responses and fields added under names the backend did not use are deliberately not judged; default agent configuration, plus four configurations without injection through which HTML documents must pass unaltered, and an h2c flavour.",
    "DESIGN.md §3 C03"),
  "C04": ("E1", "exploration",
    "runtime monitoring: exactly-once checker over recorded events (backend arrival counts per unique ID; multiset of IDs over all pending-list replies) with scripted list histories and concurrent pollers",
@@ -30,7 +30,7 @@ CHECKS = {
    "DESIGN.md §3 C04"),
  "C05": ("E1", "exploration",
    "runtime monitoring: lock-step progress monitor (backend emits chunk i+1 only after the proxy-side observer saw chunk i) with bounded-progress verdicts confirmed by solo re-run",
-   "The fake proxy de-chunks the agent's upload incrementally and parses the inner response on the fly; the backend advances only after the observer has seen the previous chunk, so any buffering that waits for more output or for the end of the response deadlocks the lock-step and is reported after the 5 s bound (re-confirmed alone at 10 s). Chunk latencies observed are reported.",
+   "The fake proxy de-chunks the agent's upload incrementally and parses the inner response on the fly; the backend advances only after the observer has seen the previous chunk, so any buffering that waits for more output or for the end of the response deadlocks the lock-step and is reported after the 5 s bound (re-confirmed alone at 10 s). Five agents (plain, websocket shim, sessions+banner, VM-identity round tripper against a fake metadata server, health checks against a backend that is busy while it streams) and an h2c lane; cases with announced trailers, missing Content-Type, pending-list blips, 11.5 s silences and an upload attempt that is rejected after the first chunk. Chunk latencies observed are reported.",
    "Unbounded 'eventually' replaced by T=5 s (>=20x observed); a miss decides only after a solo re-run.",
    "DESIGN.md §3 C05"),
  "C06": ("E2", "fault_enumeration",
@@ -60,13 +60,13 @@ CHECKS = {
    "DESIGN.md §3 C14"),
  "C20": ("E1", "exploration",
    "runtime monitoring: ordering oracles on one monotonic clock over health-reply / proxy-request / process-exit events of the real agent binary; shutdown phases held (not timed) by the harness",
-   "Health histories F^k P, P(F^(t-1)P)^m F^t for t in 1..3 and two failure kinds; shutdown scenarios signal x grace period x phase of the in-flight request x backend finishing inside/outside the period. Judged: no proxy request before the first passing reply was sent, no exit with fewer than t trailing failures, exit within 10 s of the t-th, in-flight request answered in full when the backend finishes inside the period, no list call after the announced shutdown once the held one returned, exit not before the period ended.",
+   "Health histories F^k P, P(F^(t-1)P)^m F^t for t in 1..3 and two failure kinds; shutdown scenarios signal x grace period x phase of the in-flight request x backend finishing inside/outside the period. Judged: no proxy request before the first passing reply was sent, no exit with fewer than t trailing failures, exit within 10 s of the t-th, in-flight request answered in full when the backend finishes inside the period, no list call after the announced shutdown once the held one returned, exit not before the period ended and not seconds after it, no health check after the t-th consecutive failure, health checking never stops; scenarios with second signals, fractional periods, a rejected first upload, the shim and health checks enabled, a proxy time-out shorter than the period, and a signal right after a slow start (hook utils.signals.install).",
    "Progress bound T=10 s; phases before the request reached the backend are outside the statement.",
    "DESIGN.md §3 C20"),
 
  "C10": ("E2", "exploration",
    "runtime monitoring: reference-model monitor (one net/http/cookiejar per issued session) over sequential histories; concurrent phase with tag-safety oracle, porcupine linearizability check per (session, cookie name), quiescent model comparison, hook-forced first-use overlaps + race detector",
-   "sessions.SessionHandler is driven in a race-built worker with http.ReadRequest-built requests against a scripted backend; the model jar decides exactly which cookies the backend must see, client-visible Set-Cookie must be only the agent's session cookie with the stated attributes; concurrent rounds record call/return windows from one clock and are checked with porcupine v1.3.0 (60 s timeout => inconclusive); eviction histories assert only the limit-1 most recently used sessions.",
+   "sessions.SessionHandler is driven in a race-built worker with http.ReadRequest-built requests against a scripted backend; the model jar decides exactly which cookies the backend must see, client-visible Set-Cookie must be only the agent's session cookie with the stated attributes; concurrent rounds record call/return windows from one clock and are checked with porcupine v1.3.0 (60 s timeout => inconclusive); eviction histories assert only the limit-1 most recently used sessions; 'served' histories run the handler under a real net/http server in front of a real httputil.ReverseProxy (plain, streamed and websocket-handshake requests).",
    "Jar semantics are net/http/cookiejar's for https://<Host><path>; empty-valued session cookies are not generated; time margins >= 60 s. An end-to-end sample drives the agent binary with sessions and the websocket shim enabled (plain requests and shim opens under path-scoped cookies).",
    "DESIGN.md §3 C10"),
  "C11": ("E2", "exploration",
